@@ -839,6 +839,12 @@ def obs_fit_at_points(fit, pts, where=""):
         cc = [float(c.cost(p)) for c in fit.parameter_constraints]
         g.append(("points.constraint_cost", cc, ULP, 0.0, w))
         c = float(fit.cost_function_value)
+        cf = fit._cost_function
+        needs_positive_model = "GaussApproximation" in type(cf).__name__ or "poisson" in str(getattr(cf, "name", "")).lower()
+        if not custom and needs_positive_model and np.any(np.asarray(fit.model, dtype=float) <= 0):
+            # variance (Gauss approximation) / expectation (Poisson) not positive: the cost is not defined at this point, and its
+            # pointwise and covariance formulas (do_fit may have selected either) need not agree on what they return there
+            continue
         g.append(("points.cost", c, LIN[0], LIN[1] + LIN[0] * (sum(abs(x) for x in cc)), w))
     return g
 
@@ -1922,6 +1928,10 @@ def refit(h, fit, re, case):
         pa, ca = pa2, float(fit.cost_function_value)
     except (Exception, OpTimeout):
         ctx.discard("refit-of-original-not-reproducible")
+        return
+    if np.any(np.abs(pa) > 1e7):
+        # run-away minimisation (the generators keep parameters of order 1..1e3): where it ends is an accident of the path
+        ctx.discard("refit-of-original-ran-away")
         return
     # a (nearly) degenerate minimum has no position to a fraction of the reported sigma (same policy as C06/C07/C14: cond(cor) <= 1e4)
     try:
